@@ -159,9 +159,8 @@ theorem sumNums_pyInts (is : List Int) :
 theorem acc_avg (values : List Val) (h : ∀ v ∈ values, sumOk v = true) (v : Val)
     (hs : specAvgInt (values.map some) = some v) (hf : avgFits v = true) :
     accApply "$avg" values = .ok v := by
-  simp only [accApply, groupingOnList, show ("$avg" = "$sum") = False by decide, if_false,
-    if_true, Bool.true_or, Bool.or_true, decide_true, decide_false,
-    numsOf_sumOk values h]
+  simp only [accApply, accAvg, show ("$avg" = "$sum") = False by decide, if_false,
+    if_true, accNums_sumOk values h]
   simp only [specAvgInt] at hs
   generalize specInts (values.map some) = is at hs ⊢
   have hemp : (is.map PyNum.i).isEmpty = is.isEmpty := by cases is <;> rfl
@@ -180,7 +179,7 @@ theorem acc_avg (values : List Val) (h : ∀ v ∈ values, sumOk v = true) (v : 
       simp only [Option.map_some, Option.some.injEq] at hs
       subst hs
       simp only [avgFits, Bool.and_eq_true, decide_eq_true_eq] at hf
-      simp only [sumNums_pyInts, bind, Except.bind, List.length_map]
+      simp only [sumNums_pyInts, List.length_map]
       exact pyDivide_int _ _ (by cases is <;> simp_all) m e hb hf.1 hf.2
 
 end MongoModel.Pipe.Proofs
